@@ -32,6 +32,21 @@ def install(E, names):
                     dbs[path] = e.intr['github.com/elnosh/gonuts/verifrt.SqlDB'](e, [a[0]])
                 return (Ptr(Box(StructV([dbs[path]]))), None)
             I[M + 'mint/storage/sqlite.InitSQLite'] = init_sqlite
+        elif n == 'dleq':
+            # DLEQ generation / verification as a constructor / recogniser pair (the algebra itself is decided in C10):
+            # a proof verifies iff it was generated for that key, blinded message and signature
+            from .crypto import privval, pkval, mkpriv
+            de = z3.Function('dleq_e', IntS, IntS, IntS, IntS); ds = z3.Function('dleq_s', IntS, IntS, IntS, IntS)
+            def gen(e, a):
+                k, B, C = privval(e, a[0]), pkval(e, a[1]), pkval(e, a[2])
+                return (mkpriv(de(k, B, C)), mkpriv(ds(k, B, C)))
+            def ver(e, a):
+                ev, sv, A, B, C = privval(e, a[0]), privval(e, a[1]), pkval(e, a[2]), pkval(e, a[3]), pkval(e, a[4])
+                if is_app_of(ev, 'dleq_e') and is_app_of(sv, 'dleq_s'):
+                    return z3.And(e.pubof(e, ev.arg(0)) == A, ev.arg(1) == B, ev.arg(2) == C, sv.arg(0) == ev.arg(0), sv.arg(1) == B, sv.arg(2) == C)
+                return False
+            I[M + 'crypto.GenerateDLEQ'] = gen
+            I[M + 'crypto.VerifyDLEQ'] = ver
         elif n == 'nut10':
             from . import nut10; nut10.install(E)
         else:
